@@ -13,7 +13,9 @@ META = {
                  "over a simulated node, plus recorded random consumer programs validated against the spec",
     "level": "model_checking",
     "level_text": "TLC enumerates every page layout (1-4 pages of 0-2 rows, empty pages included; quick: 1-3 pages) and every "
-                  "interleaving of the consumer operations iter / next / list()/all() / fetch_next_page / rs[i] / rs == x on it, and "
+                  "interleaving of the consumer operations iter / next / list()/all() / fetch_next_page / rs[i] / rs == x on it, plus the "
+                  "documented callback-chained consumer (add_callbacks; the callback reads has_more_pages and calls "
+                  "start_fetching_next_page inside the completion of each page, registered before or after the first page), and "
                   "checks: requests carry exactly the token returned with the previous page, pages are served once and in order, "
                   "nothing is requested after a token-less page, current_rows is the page just fetched, every iteration yields a "
                   "gap-free, duplicate-free run of the result's rows in server order that ends only at the last row, and list mode "
@@ -28,11 +30,12 @@ META = {
     "design_ref": "5.3 C18",
 }
 
-INV = ["TypeOK", "TokenChain", "ServedInOrder", "NoRequestAfterLast", "CurIsPage", "Contiguous", "Complete", "ListAgrees"]
+INV = ["TypeOK", "TokenChain", "ServedInOrder", "NoRequestAfterLast", "CurIsPage", "Contiguous", "Complete", "ListAgrees",
+       "CallbackPages"]
 PROPS = ["StopsAfterLast"]
 WITNESSES = ["Witness_EmptyMiddlePage", "Witness_ListAfterPartialIter", "Witness_ListModeFourPages", "Witness_RuntimeError",
-             "Witness_ManualToEnd"]
-ACTIONS = ("Execute", "Iter", "Next_", "Fetch", "List", "ListMode")
+             "Witness_ManualToEnd", "Witness_CallbackEarly", "Witness_CallbackLate"]
+ACTIONS = ("Execute", "Iter", "Next_", "Fetch", "List", "ListMode", "ExecAsync", "AddCallback", "Deliver")
 RULE = ("spec->code: one case = one walk through the exhaustive state graph (layout + operation sequence), the walks together "
         "cover every edge; code->spec: one case = one random program over a random layout. Non-trivial = the behaviour fetched "
         "at least two pages (>= 2 requests) and handed rows to the consumer; distinct by (layout, operations).")
@@ -90,7 +93,7 @@ def run(ctx):
             rp.Env.discard()
         replayed += 1
         last = states[-1]
-        if len(last["reqs"]) >= 2 and (len(last["yielded"]) > 0 or last["mode"] == "list"):
+        if len(last["reqs"]) >= 2 and (len(last["yielded"]) > 0 or last["mode"] == "list" or last["cb"]["calls"] >= 2):
             ctx.nontrivial((tuple(last["layout"]),) + tuple((a["name"], a["arg"]) for a in _acts(states)))
         if replayed % 4000 == 1:
             ctx.sample({"direction": "spec->code", "layout": list(states[0]["layout"]), "actions": _acts(states)})
